@@ -1647,6 +1647,16 @@ class Data(BaseCartesianData):
     # The following are methods for accessing the data in various ways that
     # can be overriden by subclasses that want to improve performance.
 
+    def _to_component_id(self, cid):
+        # Attributes can be given as strings in some methods, in which case
+        # they are taken to be the label of a component of this dataset
+        if isinstance(cid, str):
+            label = cid
+            cid = self.find_component_id(label)
+            if cid is None:
+                raise IncompatibleAttribute(label)
+        return cid
+
     def compute_statistic(self, statistic, cid, subset_state=None, axis=None,
                           finite=True, positive=False, percentile=None, view=None,
                           random_subset=None, n_chunk_max=40000000):
@@ -1684,6 +1694,8 @@ class Data(BaseCartesianData):
             If there are more elements in the array than this value, operate in
             chunks with at most this size.
         """
+
+        cid = self._to_component_id(cid)
 
         # TODO: generalize chunking to more types of axis
 
@@ -1945,6 +1957,10 @@ class Data(BaseCartesianData):
 
         if len(cids) > 2:
             raise NotImplementedError()
+
+        cids = [self._to_component_id(cid) for cid in cids]
+        if weights is not None:
+            weights = self._to_component_id(weights)
 
         ndim = len(cids)
 
